@@ -9,6 +9,7 @@ import (
 	"net"
 
 	"github.com/hashicorp/nodeenrollment/zzverif/vf"
+	"github.com/hashicorp/nodeenrollment/zzverif/vfs"
 )
 
 func init() { VfHarnesses["VerifC14Accept"] = VerifC14Accept }
@@ -34,9 +35,9 @@ var errBase = errors.New("base listener failure")
 // only; base-listener failures are the only non-temporary errors; net.ErrClosed is passed through.
 func VerifC14Accept() {
 	ctx := context.Background()
-	st := &vfStorage{}
+	st := &vfs.Storage{}
 	// peer 1: arbitrary ALPN entries (may or may not use library prefixes), no certificate
-	p1 := &vfPeer{Protos: []string{vf.String("alpn", 40), vf.String("alpn", 40)}}
+	p1 := &vfs.Peer{Protos: []string{vf.String("alpn", 40), vf.String("alpn", 40)}}
 	p1.Conn = vf.AdversaryConn(p1.Protos, nil, 0, false)
 	base := &vfScriptListener{}
 	base.steps = []func() (net.Conn, error){
